@@ -242,9 +242,6 @@ def _preamble(repo, rep):
 SET_ITER_OK = {
     "self._slots": "one independent 'pop the filler' statement per slot "
                    "name: the statements commute",
-    "getitem(self._translations, `-1`)": "initialisation of per-name block "
-                                          "variables and dict entries of "
-                                          "the mapping: order-free",
 }
 
 
@@ -252,9 +249,6 @@ SET_ITER_REVIEWED = {
     ("chameleon.compiler.Compiler.visit_Macro", "self._slots"):
         "one independent 'pop the filler' statement per slot name: the "
         "statements commute",
-    ("chameleon.compiler.Compiler.visit_Translate", "self._translations[-1]"):
-        "initialisation of per-name block variables and dict entries of "
-        "the mapping: order-free",
 }
 
 
@@ -293,6 +287,8 @@ def _identifiers(repo, rep):
         for w in A.walk(res.emission):
             if isinstance(w, A.Loop):
                 it = A.show(w.iter, limit=6)
+                if it.startswith("sorted("):
+                    continue        # a fixed order
                 if "_slots" in it or "_translations" in it or \
                         it.startswith("set("):
                     ok = it in SET_ITER_OK
